@@ -53,6 +53,23 @@ def sh(cmd, cwd=None, timeout=None, env=None):
     return p.returncode, p.stdout + p.stderr
 
 
+def sh_budget(cmd, cwd, budget):
+    """run a build under a wall-clock budget; on expiry the whole process group is killed (lake's lean children too).
+    Returns (rc, output, expired)."""
+    import signal
+    p = subprocess.Popen(cmd, cwd=cwd, stdout=subprocess.PIPE, stderr=subprocess.STDOUT, text=True, start_new_session=True)
+    try:
+        out, _ = p.communicate(timeout=budget)
+        return p.returncode, out, False
+    except subprocess.TimeoutExpired:
+        try:
+            os.killpg(p.pid, signal.SIGKILL)
+        except ProcessLookupError:
+            pass
+        out, _ = p.communicate()
+        return 1, out or "", True
+
+
 def strip_comments(src: str) -> str:
     out, i, depth = [], 0, 0
     while i < len(src):
@@ -214,9 +231,15 @@ def run_property(pid, tier, seed):
         for (nm, a, b) in theorems_of(f):
             ths.append((f, nm, a, b))
     ctx.obligations = [nm for _, nm, _, _ in ths]
-    rc, out = sh(["lake", "build"] + targets, cwd=LEAN, timeout=7200)
+    # a proof script that no longer terminates on a changed program (observed: 17 min at 9 cores, half the memory, on a seeded change)
+    # is a proof that no longer checks: bounded, then the search decides
+    budget = int(os.environ.get("VERIF_PROOF_BUDGET", "1500" if tier == "quick" else "7200"))
+    rc, out, expired = sh_budget(["lake", "build"] + targets, LEAN, budget)
     failed_names = set()
-    if rc != 0:
+    if expired:
+        ctx.fail("build:" + ",".join(targets), "proof-budget-exceeded", {"budget_s": budget, "log": out[-2000:]})
+        failed_names = set(ctx.obligations)
+    elif rc != 0:
         errs = re.findall(r"error: (\S+?\.lean):(\d+):(\d+): (.*)", out)
         attributed = False
         for (ef, ln, col, msg) in errs:
